@@ -1,12 +1,15 @@
 #!/bin/sh
-# tools/try_seeded.sh <seeded-id> <prop> [<prop>...] : apply seeded/<id>/patch.diff to /repo, run the quick checks, undo.
+# tools/try_seeded.sh <seeded-id | patch file> <prop> [<prop>...] : apply the change to a scratch worktree of /repo, run the
+# quick checks of the given properties against it, remove the worktree.  /repo and evidence/ are not touched.
 id="$1"; shift
+pf="$id"; [ -f "$pf" ] || pf="/verif/seeded/$id/patch.diff"
 cd /verif
-git -C /repo diff --quiet || { echo "/repo has uncommitted changes"; exit 9; }
-git -C /repo apply "/verif/seeded/$id/patch.diff" || { echo "patch does not apply"; exit 9; }
-rm -rf .scratch/evidence.bak; cp -r evidence .scratch/evidence.bak
-trap 'git -C /repo checkout -- .; rm -rf evidence; mv .scratch/evidence.bak evidence' EXIT INT TERM
+WT="/tmp/try-wt-$$"; OUT="/tmp/try-out-$$"
+git -C /repo worktree add --detach "$WT" HEAD >/dev/null 2>&1 || { echo "cannot create worktree"; exit 9; }
+trap 'git -C /repo worktree remove --force "$WT" >/dev/null 2>&1; rm -rf "$WT" "$OUT"' EXIT INT TERM
+git -C "$WT" apply "$pf" || { echo "patch does not apply"; exit 9; }
 for p in "$@"; do
-  ./check "$p" --tier quick > ".scratch/try_${id}_${p}.out" 2>&1; rc=$?
-  echo "== $id on $p: exit=$rc"; grep -E '^(VIOLATION|UNDECIDED|CHECKER-ERROR|  obligation)' ".scratch/try_${id}_${p}.out" | cut -c1-300 | head -8
+  PYVC_REPO="$WT" PYVC_OUT="$OUT" ./check "$p" --tier quick > ".scratch/try_$$.out" 2>&1; rc=$?
+  echo "== $id on $p: exit=$rc"; grep -E '^(VIOLATION|UNDECIDED|CHECKER-ERROR|  obligation)' ".scratch/try_$$.out" | cut -c1-300 | head -8
 done
+rm -f ".scratch/try_$$.out"
